@@ -138,29 +138,37 @@ def gen(ctx):
         yield case
 
 
+_CLASSES = {}
+
+
 def build_and_run(case, ctx):
     import edzed
     hist = core.History()
     pool = NUMERIC if case['sender'] == 'counter' else VALUES
     counters = {}       # filter id -> call counter (reject_odd)
 
-    class Dest(edzed.SBlock):
-        def init_regular(self):
-            self.set_output(0)
+    # (the destination classes are created once per process: every new subclass of an ABC-based
+    # add-on stays registered in the ABC machinery, thousands of them cost gigabytes)
+    if 'Dest' not in _CLASSES:
+        class Dest(edzed.SBlock):
+            def init_regular(self):
+                self.set_output(0)
 
-        def _event(self, etype, data):
-            snd = self.x_sender[0]
-            hist.log('recv', self.name, etype, dict(data),
-                     snd.output if snd is not None else None)
-            return None
+            def _event(self, etype, data):
+                snd = self.x_sender[0]
+                self.x_hist.log('recv', self.name, etype, dict(data),
+                                snd.output if snd is not None else None)
+                return None
 
-    class DestP(edzed.AddonPersistence, Dest):
-        """A destination with the persistence add-on in its hierarchy (as Input, Counter, FSM)."""
-        def _get_state(self):
-            return self._output
+        class DestP(edzed.AddonPersistence, Dest):
+            """A destination with the persistence add-on in its hierarchy (as Input, Counter)."""
+            def _get_state(self):
+                return self._output
 
-        def _restore_state(self, state):
-            self.set_output(state)
+            def _restore_state(self, state):
+                self.set_output(state)
+        _CLASSES['Dest'], _CLASSES['DestP'] = Dest, DestP
+    Dest, DestP = _CLASSES['Dest'], _CLASSES['DestP']
 
     class Src(edzed.SBlock):
         def init_regular(self):
@@ -221,7 +229,7 @@ def build_and_run(case, ctx):
 
     def build():
         for i in range(3):
-            (DestP if i == 1 else Dest)(f"d{i}", x_sender=sender_ref)
+            (DestP if i == 1 else Dest)(f"d{i}", x_sender=sender_ref, x_hist=hist)
         oo = mk_events(case['on_output'], 'o', case['form'][0])
         oe = mk_events(case['on_every'], 'e', case['form'][1])
         kind = case['sender']
